@@ -23,7 +23,33 @@ def prepare(prog):
         return isinstance(s, ast.Assign) and ast.unparse(s.targets[0]).startswith("self.")
     q, stmts = extract_block(prog, f"{MW}:WorkloadGenerator.__init__", "gen_timing_init", is_start, belongs,
                              ["self", "waiting_seconds_mean", "ticks_per_second"], "None")
+    try:
+        prepare_knobs(prog)
+    except KeyError:
+        pass        # gen_knobs_init is then reported as unreachable on its own
     return q, stmts
+
+
+KNOBS = ("cpu_io_ratio", "num_pipelines", "num_operators")
+
+
+def prepare_knobs(prog):
+    """the statements of WorkloadGenerator.__init__ that mention one of the plain parameters cpu_io_ratio / num_pipelines /
+    num_operators (assignments, asserts), in order, as gen_knobs_init(self, cpu_io_ratio, num_pipelines, num_operators).
+    The statements in between are dropped; the extraction refuses if one of them binds such a name or writes such a field
+    (calls in dropped statements are assumed not to touch these three fields)."""
+    from pyvc.extract import register_block
+    fn = prog.func(f"{MW}:WorkloadGenerator.__init__")
+    kept = []
+    for st in fn.body:
+        names = {x.id for x in ast.walk(st) if isinstance(x, ast.Name)} | {x.attr for x in ast.walk(st) if isinstance(x, ast.Attribute)}
+        if names & set(KNOBS):
+            if not isinstance(st, (ast.Assign, ast.AugAssign, ast.AnnAssign, ast.Assert)):
+                raise KeyError(f"{MW}:WorkloadGenerator.__init__: a compound statement mentions a generator knob (contract attachment lost)")
+            kept.append(st)
+    if not kept:
+        raise KeyError(f"{MW}:WorkloadGenerator.__init__: no statement mentions the generator knobs (contract attachment lost)")
+    return register_block(prog, f"{MW}:WorkloadGenerator.__init__", "gen_knobs_init", kept, ["self"] + list(KNOBS), "None")
 
 
 def declare(S: Spec):
@@ -51,6 +77,16 @@ def declare(S: Spec):
          modifies=["self.ticks_per_second", "self.tick_length_secs", "self.ticks_since_last_gen", "self.waiting_ticks_mean",
                    "self.waiting_ticks_stdev", "self.curr_waiting_ticks"],
          note="extracted from WorkloadGenerator.__init__")
+
+    S.fn(f"{MW}:gen_knobs_init", owners=["C15"],
+         params={"self": Ref("WorkloadGenerator"), "cpu_io_ratio": REAL, "num_pipelines": INT, "num_operators": REAL},
+         requires=["self is not None"],
+         ensures=[("the-configured-ratio-is-the-one-used", "self.cpu_io_ratio == old(cpu_io_ratio)"),
+                  ("the-configured-counts-are-the-ones-used", "self.num_pipelines == old(num_pipelines) and self.num_operators == old(num_operators)"),
+                  ("only-ratios-in-0-1-are-accepted", "0 <= old(cpu_io_ratio) and old(cpu_io_ratio) <= 1")],
+         raises={"AssertionError": ["not (0 <= old(cpu_io_ratio) and old(cpu_io_ratio) <= 1)"]},
+         modifies=["self.cpu_io_ratio", "self.num_pipelines", "self.num_operators"],
+         note="extracted from WorkloadGenerator.__init__: the statements that mention cpu_io_ratio / num_pipelines / num_operators")
 
     # ---- wait / emit protocol ----------------------------------------------------------------------------
     S.pred("GenInv", [("g", Ref("WorkloadGenerator"))],
